@@ -243,12 +243,18 @@ def update_connectivity(
     # By constructing the array using new_fill_value where needed,
     # setting the dtype explicitly, and adding the _FillValue attribute,
     # xarray will cooperate.
+    def new_value(item: Any) -> Any:
+        # Entries that were already missing stay missing,
+        # as do entries that refer to something that has been dropped,
+        # such as a neighbouring face outside of the clipped region.
+        if item is numpy.ma.masked:
+            return fill_value
+        value = column_values[item]
+        return fill_value if value is numpy.ma.masked else value
+
     include_row = ~numpy.ma.getmask(row_indexes)
     raw_values = numpy.array([
-        [
-            column_values[item] if item is not numpy.ma.masked else fill_value
-            for item in row
-        ]
+        [new_value(item) for item in row]
         for row in old_array[include_row]
     ], dtype=dtype)
     values = numpy.ma.masked_equal(raw_values, fill_value)
